@@ -179,13 +179,13 @@ theorem term_findL_plain (hW : 1 ≤ W) (sp : Pos) (rl : Bool) : ∀ fuel, TermS
 
 def TermSL (H W : Nat) (root : Val) (sp : Pos) (rl : Bool) (fuel : Nat) : Prop :=
   ∀ (toks : List Str) (par : PRef) (found : Str) (g : Nat),
-    (∀ t ∈ toks, NoNew t) → NoNew found → SafeRef NoNew root par →
+    (∀ t ∈ toks, NoNew t) →
     SafeRef PlainKey root par → TermRef H W root par → TermFound found g →
     termPotL H W toks g ≤ fuel →
     TermOut (fun _ => True) root (findL fuel root sp toks par rl found)
 
 theorem term_dispatch (ctx : TermCtx H W root) (f : Nat) (elem : PRef) (ev : Val) (rest : List Str) (rl : Bool)
-    (found : Str) (g : Nat) (hrest : ∀ t ∈ rest, NoNew t) (hfN : NoNew found) (hN : SafeRef NoNew root elem)
+    (found : Str) (g : Nat) (hrest : ∀ t ∈ rest, NoNew t)
     (hK : SafeRef PlainKey root elem) (hB : TermRef H W root elem) (hfd : TermFound found g) (hh : termHgtRef root elem ≤ H)
     (hf : termPot H W rest H g ≤ f) :
     TermOut (fun _ => True) root (dispatchD f root elem ev rest rl found) := by
@@ -193,12 +193,12 @@ theorem term_dispatch (ctx : TermCtx H W root) (f : Nat) (elem : PRef) (ev : Val
   split
   · rename_i p _
     have := termPot_mono H W rest _ _ g g hh (Nat.le_refl _)
-    exact term_main ctx p rl f true rest elem found g hrest hfN hN hK hB hfd (by omega)
+    exact term_main ctx p rl f true rest elem found g hrest hK hB hfd (by omega)
   · exact TermOut_err (by decide)
 
 theorem term_findL_step (ctx : TermCtx H W root) (sp : Pos) (rl : Bool) (fuel : Nat)
     (ih : ∀ m, m < fuel → TermSL H W root sp rl m) : TermSL H W root sp rl fuel := by
-  intro toks par found g htoks hfN hparN hparK hparB hfd hfuel
+  intro toks par found g htoks hparK hparB hfd hfuel
   have hW := ctx.hW
   obtain ⟨f, rfl⟩ : ∃ f, fuel = f + 1 := ⟨fuel - 1, by have := termPotL_pos H W toks g; omega⟩
   cases toks with
@@ -228,7 +228,7 @@ theorem term_findL_step (ctx : TermCtx H W root) (sp : Pos) (rl : Bool) (fuel : 
         obtain ⟨name, idx⟩ := p
         -- elements of a list-valued parent
         have helem : ∀ (par' : PRef), ((isList pv = true ∧ par' = par) ∨ (isList pv = false ∧ par' = .wrap par)) → ∀ n,
-            SafeRef NoNew root (childRef root par' (.idx n)) ∧ SafeRef PlainKey root (childRef root par' (.idx n)) ∧
+            SafeRef PlainKey root (childRef root par' (.idx n)) ∧
             TermRef H W root (childRef root par' (.idx n)) ∧ termHgtRef root (childRef root par' (.idx n)) ≤ H := by
           intro par' hp n
           obtain ⟨hpar', hchild'⟩ := term_idx_parent hW hpv hparB hp
@@ -236,11 +236,7 @@ theorem term_findL_step (ctx : TermCtx H W root) (sp : Pos) (rl : Bool) (fuel : 
             rcases hp with ⟨_, rfl⟩ | ⟨_, rfl⟩
             · exact hparK
             · exact SafeRef_wrap hparK
-          have hN' : SafeRef NoNew root par' := by
-            rcases hp with ⟨_, rfl⟩ | ⟨_, rfl⟩
-            · exact hparN
-            · exact SafeRef_wrap hparN
-          refine ⟨SafeRef_child hN' _, SafeRef_child hK' _, TermRef_child hpar' _, ?_⟩
+          refine ⟨SafeRef_child hK' _, TermRef_child hpar' _, ?_⟩
           unfold termHgtRef
           split
           · rename_i c hc; exact (hchild' n c hc).2
@@ -282,12 +278,12 @@ theorem term_findL_step (ctx : TermCtx H W root) (sp : Pos) (rl : Bool) (fuel : 
                     (max (termPot H W rest H (g + 1)) (termPotL H W rest (g + 1))) f ?_ ?_ items 0 [] Option.none f (by omega)
                     (Nat.le_refl _)
                   · intro i it f' hf' _
-                    obtain ⟨h1, h2, h3, h4⟩ := helem par (Or.inl ⟨hl, rfl⟩) i
-                    exact term_dispatch ctx f' _ it rest rl _ (g + 1) hrest (P_found_idx hfN (P_natStr i)) h1 h2 h3
+                    obtain ⟨h2, h3, h4⟩ := helem par (Or.inl ⟨hl, rfl⟩) i
+                    exact term_dispatch ctx f' _ it rest rl _ (g + 1) hrest h2 h3
                       (hfd.idx (i : Int)) h4 (by omega)
                   · intro i f' hf' hf'F
-                    obtain ⟨h1, h2, h3, _⟩ := helem par (Or.inl ⟨hl, rfl⟩) i
-                    exact ih f' (by omega) rest _ _ (g + 1) hrest (P_found_idx hfN (P_natStr i)) h1 h2 h3 (hfd.idx (i : Int))
+                    obtain ⟨h2, h3, _⟩ := helem par (Or.inl ⟨hl, rfl⟩) i
+                    exact ih f' (by omega) rest _ _ (g + 1) hrest h2 h3 (hfd.idx (i : Int))
                       (by omega)
             · split
               · rename_i e he; rw [n0eval_err he]; exact TermOut_err (by decide)
@@ -319,13 +315,13 @@ theorem term_findL_step (ctx : TermCtx H W root) (sp : Pos) (rl : Bool) (fuel : 
                     · split
                       · exact TermOut_err (by decide)
                       · rename_i n _
-                        obtain ⟨h1, h2, h3, h4⟩ := helem par' hp n
+                        obtain ⟨h2, h3, h4⟩ := helem par' hp n
                         split
                         · exact ⟨rfl, trivial⟩
                         · split
-                          · exact term_dispatch ctx f _ _ rest rl _ (g + 1) hrest (P_found_idx hfN (P_intStr i)) h1 h2 h3
+                          · exact term_dispatch ctx f _ _ rest rl _ (g + 1) hrest h2 h3
                               (hfd.idx i) h4 (by omega)
-                          · exact ih f (by omega) rest _ _ (g + 1) hrest (P_found_idx hfN (P_intStr i)) h1 h2 h3 (hfd.idx i)
+                          · exact ih f (by omega) rest _ _ (g + 1) hrest h2 h3 (hfd.idx i)
                               (by omega)
                           · exact TermOut_err (by decide)
                   cases pv with
@@ -355,29 +351,29 @@ def termFuel (t : Val) (s : Str) : Nat :=
   let toks := tokenize (if startsWith s ['?'] then s.drop 1 else s)
   max (termPot H W toks H 0) (termPotL H W toks 0)
 
-theorem term_ctx_of {t : Val} (hp : SafeKeys PlainKey t) (hs : SafeKeys NoNew t) :
+theorem term_ctx_of {t : Val} (hp : SafeKeys PlainKey t) :
     TermCtx (termHgt t) (max 1 (termWd t)) t :=
-  ⟨by omega, Nat.le_refl _, by omega, hp, hs⟩
+  ⟨by omega, Nat.le_refl _, by omega, hp⟩
 
-/-- `_get` on a safe path and a tree with plain, safe keys never exhausts the fuel `termFuel` -/
+/-- `_get` on a safe path and a tree with plain keys never exhausts the fuel `termFuel` -/
 theorem term_getCore (fuel : Nat) (root : Val) (xp : Str) (dflt : Val) (raise rl : Bool)
-    (hxp : NoNew xp) (hp : SafeKeys PlainKey root) (hs : SafeKeys NoNew root) (hf : termFuel root xp ≤ fuel) :
+    (hxp : NoNew xp) (hp : SafeKeys PlainKey root) (hf : termFuel root xp ≤ fuel) :
     (getCore fuel root xp dflt raise rl).2 ≠ .error .OutOfFuel := by
-  have ctx := term_ctx_of hp hs
+  have ctx := term_ctx_of hp
   have hdrop : NoNew (xp.drop 1) := P_drop 1 hxp
   have hcaught : caught PyErr.OutOfFuel = false := by decide
   -- the two searches, for either token list
   have hD : ∀ s, NoNew s → termPot (termHgt root) (max 1 (termWd root)) (tokenize s) (termHgt root) 0 ≤ fuel →
       TermOut (fun _ => True) root (findD fuel root [] false true (tokenize s) (.at []) rl slash) := by
     intro s hs' hle
-    refine term_main ctx [] rl fuel true (tokenize s) (.at []) slash 0 (P_tokenize hs') P_slash (SafeRef_at ctx.safe [])
+    refine term_main ctx [] rl fuel true (tokenize s) (.at []) slash 0 (P_tokenize hs')
       (SafeRef_at ctx.plain []) (TermRef_at ctx.hgt ctx.wd []) (TermFound_slash 0) ?_
     have : termHgtRef root (.at []) = termHgt root := by simp [termHgtRef, valOf, getAt]
     rw [this]; exact hle
   have hL : ∀ s, NoNew s → termPotL (termHgt root) (max 1 (termWd root)) (tokenize s) 0 ≤ fuel →
       TermOut (fun _ => True) root (findL fuel root [] (tokenize s) (.at []) rl slash) := by
     intro s hs' hle
-    exact term_findL ctx [] rl fuel (tokenize s) (.at []) slash 0 (P_tokenize hs') P_slash (SafeRef_at ctx.safe [])
+    exact term_findL ctx [] rl fuel (tokenize s) (.at []) slash 0 (P_tokenize hs')
       (SafeRef_at ctx.plain []) (TermRef_at ctx.hgt ctx.wd []) (TermFound_slash 0) hle
   unfold termFuel at hf
   simp only at hf
